@@ -159,4 +159,54 @@ Section ZoneInst.
     intros [-> Wf]. change (zobj x) with (obj_of (zv x) tzo). rewrite (sglue_subtract_day (zv x) tzo (zv_matches x) (zwall_range x Wf)).
     apply step_sim; [exact Wf|now right].
   Qed.
+
+  (* ---------------- the methods *)
+  Definition zreso (r : result (option zdt)) : result (option gdt) :=
+    match r with Ok (Some x) => Ok (Some (zobj x)) | Ok None => Ok None | Raise e => Raise e end.
+  Lemma simz_eq G r : simz G r -> G = zres r.
+  Proof. destruct G as [g|e], r as [x|e']; cbn [sim zres]; try contradiction; [intros [-> _]; reflexivity|intros ->; reflexivity]. Qed.
+  Lemma simzo_eq G r : simo zdt Rz G r -> G = zreso r.
+  Proof.
+    destruct G as [[g|]|e], r as [[x|]|e']; cbn [simo zreso]; try contradiction; try reflexivity; [intros [-> _]; reflexivity|intros ->; reflexivity].
+  Qed.
+  Lemma Rz_obj x : wfz x -> Rz x (zobj x). Proof. intros Wf. split; [reflexivity|exact Wf]. Qed.
+
+  Ltac hyps := intros; lazymatch goal with
+    | |- _ /\ _ => apply Hz_fields; assumption
+    | |- sim _ _ (sglue_start_of_day _) _ => apply Hz_sod; assumption
+    | |- sim _ _ (glue_DateTime_add _ _ _ _ _ _ _ _ _) _ => apply Hz_add; assumption
+    | |- sim _ _ (sglue_subtract _ _ _ _ _ _ _ _ _) _ => apply Hz_sub; assumption
+    | |- sim _ _ (glue_DateTime_set _ None None _ _ _ _ _ _) _ => apply Hz_set_day; assumption
+    | |- sim _ _ (glue_DateTime_set _ None _ None _ _ _ _ _) _ => apply Hz_set_month; assumption
+    | |- sim _ _ (glue_DateTime_set _ _ _ _ _ _ _ _ _) _ => apply Hz_set_md; assumption
+    | |- sim _ _ (glue_DateTime_on _ _ _ _) _ => apply Hz_on; assumption
+    | |- Rz _ _ => apply Rz_obj; assumption
+    end.
+
+  Theorem nglue_next_zone x wd keep : wfz x -> nglue_next (zobj x) wd keep = zres (z_next z x wd keep).
+  Proof. intros Wf. rewrite <- nav_z_next. apply simz_eq. eapply sim_next; hyps. Qed.
+  Theorem nglue_previous_zone x wd keep : wfz x -> nglue_previous (zobj x) wd keep = zres (z_previous z x wd keep).
+  Proof. intros Wf. rewrite <- nav_z_previous. apply simz_eq. eapply sim_previous; hyps. Qed.
+  Theorem nglue_first_of_zone u x wd : wfz x -> nglue_first_of u (zobj x) wd = zres (z_first_of z u x wd).
+  Proof. intros Wf. rewrite <- nav_z_first_of. apply simz_eq. eapply sim_first_of; hyps. Qed.
+  Theorem nglue_last_of_zone u x wd : wfz x -> nglue_last_of u (zobj x) wd = zres (z_last_of z u x wd).
+  Proof. intros Wf. rewrite <- nav_z_last_of. apply simz_eq. eapply sim_last_of; hyps. Qed.
+  Theorem nglue_first_of_units_zone x wd : wfz x ->
+    nglue_first_of_month (zobj x) wd = zres (z_first_of_month z x wd) /\ nglue_last_of_month (zobj x) wd = zres (z_last_of_month z x wd) /\
+    nglue_first_of_quarter (zobj x) wd = zres (z_first_of_quarter z x wd) /\ nglue_last_of_quarter (zobj x) wd = zres (z_last_of_quarter z x wd) /\
+    nglue_first_of_year (zobj x) wd = zres (z_first_of_year z x wd) /\ nglue_last_of_year (zobj x) wd = zres (z_last_of_year z x wd).
+  Proof.
+    intros Wf. repeat split.
+    - exact (nglue_first_of_zone U_MONTH x wd Wf). - exact (nglue_last_of_zone U_MONTH x wd Wf).
+    - exact (nglue_first_of_zone U_QUARTER x wd Wf). - exact (nglue_last_of_zone U_QUARTER x wd Wf).
+    - exact (nglue_first_of_zone U_YEAR x wd Wf). - exact (nglue_last_of_zone U_YEAR x wd Wf).
+  Qed.
+  Theorem nglue_nth_of_month_zone x nth w : wfz x -> nglue_nth_of_month (zobj x) nth w = zreso (z_nth_of_month z x nth w).
+  Proof. intros Wf. rewrite <- nav_z_nth_of_month. apply simzo_eq. eapply sim_nth_of_month; hyps. Qed.
+  Theorem nglue_nth_of_quarter_zone x nth w : wfz x -> nglue_nth_of_quarter (zobj x) nth w = zreso (z_nth_of_quarter z x nth w).
+  Proof. intros Wf. rewrite <- nav_z_nth_of_quarter. apply simzo_eq. eapply sim_nth_of_quarter; hyps. Qed.
+  Theorem nglue_nth_of_year_zone x nth w : wfz x -> nglue_nth_of_year (zobj x) nth w = zreso (z_nth_of_year z x nth w).
+  Proof. intros Wf. rewrite <- nav_z_nth_of_year. apply simzo_eq. eapply sim_nth_of_year; hyps. Qed.
+  Theorem nglue_nth_of_zone u x nth w : wfz x -> nglue_nth_of u (zobj x) nth w = zres (z_nth_of z u x nth w).
+  Proof. intros Wf. rewrite <- nav_z_nth_of. apply simz_eq. eapply sim_nth_of; hyps. Qed.
 End ZoneInst.
